@@ -123,7 +123,7 @@ template <class E> struct Driver {
   }
 
   // ---- minimisation: plan first, then schedule (DESIGN.md 2.5) ----------------
-  static bool shrink(Plan &plan, Report &rep, js::Value &info, int max_exec = 500) {
+  static bool shrink(Plan &plan, Report &rep, js::Value &info, int max_exec = 400) {
     const std::string cls = rep.cls;
     int execs = 0, plan_steps = 0;
     long orig_dev = (long)rep.deviations.size();
@@ -145,6 +145,7 @@ template <class E> struct Driver {
     // schedule: ddmin over deviations from the default policy
     std::vector<std::pair<long, int>> dev = rep.deviations;
     size_t n = 2;
+    max_exec = execs + 300;
     while (dev.size() >= 1 && execs < max_exec) {
       size_t chunk = std::max<size_t>(1, dev.size() / n);
       bool reduced = false;
